@@ -286,6 +286,8 @@ package trie
 //@   before "return bitmap.Rank128(" assert is_node(st, qr) ==> !is_short(st, int(qr.ithInner))
 //@   ensures is_node(st, qr) ==> int(result0) == W_lch(st, qr.key, int(qr.ithInner), int(keyBitIdx)) && int(result1) == W_has(st, qr.key, int(qr.ithInner), int(keyBitIdx))
 
+// leafval(st, id): the decoded value stored at leaf id (naming clause of the deterministic, read-only getLeaf)
+//@ spec leafval(st *SlimTrie, id int32) interface{}
 //@ func (*SlimTrie).getLeaf
 //@   property C01 C10
 //@   requires wf_core(st) && wf_tree(st) && wf_leaves(st) && st.encoder != nil
@@ -293,6 +295,7 @@ package trie
 //@   use rank1_range(NTW(st), int(nodeid))
 //@   use at(nodeid)
 //@   ensures st.inner.Leaves == nil ==> result == nil
+//@   defines result == leafval(st, nodeid)
 
 //@ func (*SlimTrie).getIthLeaf
 //@   property C01 C10
@@ -416,6 +419,10 @@ package trie
 //@   requires st != nil && st.inner != nil && st.inner.NodeTypeBM != nil && wf_core(st) && wf_lprefix(st) && st.inner.LeafPrefixes != nil && 0 <= lf && lf < nL(st) && has_tail(st, lf)
 //@   ensures 0 <= tail_lo(st, lf) && tail_lo(st, lf) < tail_hi(st, lf) && tail_hi(st, lf) <= len(st.inner.LeafPrefixes.Bytes)
 //@   proof auto using rank1_le_ones(LPP(st), lf); rank1_range(LPP(st), lf); at(rank1(LPP(st), lf), rank1(LPP(st), lf) + 1)
+//@ lemma inners_facts(st *SlimTrie)
+//@   requires st != nil && st.inner != nil && st.inner.NodeTypeBM != nil && wf_core(st)
+//@   ensures st.inner.Inners != nil && wf_r128(st.inner.Inners)
+//@   proof auto
 //@ lemma node_parent(st *SlimTrie, id int)
 //@   requires st != nil && st.inner != nil && st.inner.NodeTypeBM != nil && wf_core(st) && wf_tree(st) && 0 <= id && id < nN(st) && bitat(NTW(st), id) == 1
 //@   ensures FC(st, rank1(NTW(st), id)) >= id
@@ -443,7 +450,12 @@ package trie
 //@   after strCmpUpto#1 assert (result == 0) == W_ipm(st, key, int(qr.ithInner), int(i))
 //@   after getLeftChildID#1 assert is_node(st, qr)
 //@   after getLeftChildID#1 use align_sum(athead(1, int(i)), int(qr.innerPrefixLen))
-//@   at "i += qr.wordSize" use align_step(int(i) - int(qr.wordSize), int(l), int(qr.wordSize))
+//@   at "i += qr.wordSize" assert qr.wordSize == 4 ==> (int(i) - 4)%4 == 0 && int(i)%4 == 0
+//@   at "i += qr.wordSize" assert qr.wordSize == 8 ==> (int(i) - 8)%4 == 0 && int(i)%4 == 0
+//@   at "i += qr.wordSize" assert int(qr.ithInner) < nB(st) ==> qr.wordSize == 8 && (int(i) - 8)%8 == 0
+//@   at "i += qr.wordSize" assert int(qr.ithInner) < nB(st) ==> int(i)%8 == 0
+//@   at "i += qr.wordSize" assert rank1(NTW(st), eqID) < nB(st) ==> int(qr.ithInner) < nB(st)
+//@   at "i += qr.wordSize" use align_step(int(i) - int(qr.wordSize), int(l))
 //@   after getNode#1 use node_facts(st, int(qr.ithInner))
 //@   after getNode#1 use walk_leaf(st, key, int(eqID), int(i))
 //@   after getNode#1 use tail_facts(st, leaf_ord(st, int(eqID)))
@@ -496,6 +508,9 @@ package trie
 //@   requires wf_query(st) && len(key) <= 100000000 && (st.inner.NodeTypeBM != nil ==> wf_leaves(st) && st.encoder != nil)
 //@   ensures result1 == (getid(st, key) != -1)
 //@   ensures !result1 ==> result0 == nil
+//@   ensures st.inner.NodeTypeBM == nil ==> !result1
+//@   ensures st.inner.NodeTypeBM != nil ==> result1 == (walk(st, key, 0, 0) != -1)
+//@   ensures st.inner.NodeTypeBM != nil && result1 ==> result0 == leafval(st, int32(walk(st, key, 0, 0)))
 
 //@ func (*SlimTrie).GetI8
 //@   property C14 C10
@@ -868,12 +883,30 @@ func lemmaTypedGettersAgreeOnFound(st *SlimTrie, key string) (bool, bool, bool, 
 //@   requires wf_query(st) && len(key) <= 100000000 && (st.inner.NodeTypeBM != nil ==> wf_leaves(st) && st.encoder != nil)
 //@   ensures st.inner.NodeTypeBM == nil ==> !result1
 //@   ensures !result1 ==> result0 == nil
+//@   ensures st.inner.NodeTypeBM != nil && walk(st, key, 0, 0) != -1 ==> result1 && result0 == leafval(st, int32(walk(st, key, 0, 0)))
 //@   defines result1 == rg_found(st, key)
 
 //@ func (*SlimTrie).Search
 //@   property C09 C10
 //@   requires wf_query(st) && len(key) <= 100000000 && (st.inner.NodeTypeBM != nil ==> wf_leaves(st) && st.encoder != nil)
 //@   ensures st.inner.NodeTypeBM == nil ==> result0 == nil && result1 == nil && result2 == nil
+//@   ensures st.inner.NodeTypeBM != nil && walk(st, key, 0, 0) == -1 ==> result1 == nil
+//@   ensures st.inner.NodeTypeBM != nil && walk(st, key, 0, 0) != -1 ==> result1 == leafval(st, int32(walk(st, key, 0, 0)))
+
+// C10, agreement clause, for EVERY wf(st) and EVERY query string: GetID and the exact-match id of searchID are the same
+// node (both equal the abstract descent walk); Get reports found exactly when walk finds a leaf; then Search's exact-match
+// value and RangeGet's value are Get's value and RangeGet reports found; when Get misses, Search's exact match is nil.
+//@ func lemmaGetIDSearchIDAgree
+//@   property C10 C09 C03
+//@   requires wf_query(st) && len(key) <= 100000000
+//@   ensures result0 == result1
+//@ func lemmaGetSearchRangeGetAgree
+//@   property C10 C03
+//@   requires wf_query(st) && len(key) <= 100000000 && (st.inner.NodeTypeBM != nil ==> wf_leaves(st) && st.encoder != nil)
+//@   ensures !result1 ==> result2 == nil
+//@   ensures result1 ==> result2 == result0
+//@   ensures result1 ==> result4
+//@   ensures result1 ==> result3 == result0
 
 // ---------------------------------------------------------------------------
 // loader (C05 C07 C20): control-flow and frame contract of Unmarshal.
@@ -952,18 +985,61 @@ func lemmaTypedGettersAgreeOnFound(st *SlimTrie, key string) (bool, bool, bool, 
 //@   requires st.inner != nil && qr != nil
 //@   ensures -1 <= result && result <= 1
 //@   ensures st.inner.LeafPrefixes == nil ==> result == 0
+//@   ensures st.inner.LeafPrefixes != nil && qr.hasLeafPrefix ==> int(result) == bytes_cmp(bytesof(tail), qr.leafPrefix)
+//@   ensures st.inner.LeafPrefixes != nil && qr.hasLeafPrefix && result == 0 ==> len(tail) == len(qr.leafPrefix)
+//@   ensures st.inner.LeafPrefixes != nil && !qr.hasLeafPrefix ==> (result == 0) == (len(tail) == 0)
 
 //@ func (*SlimTrie).searchID
 //@   property C02 C03 C09 C10
-//@   opaque wf_iprefix wf_lprefix
+//@   opaque wf_iprefix wf_lprefix wf_tree wf_core
 //@   requires wf_query(st) && len(key) <= 100000000
 //@   loop 1 invariant 0 <= eqID && int(eqID) < nN(st)
-//@   loop 1 invariant 0 <= i && i <= l + 4
+//@   loop 1 invariant 0 <= i && i <= l
+//@   loop 1 invariant !qr.hasLeafPrefix
+//@   loop 1 invariant rank1(NTW(st), eqID) < nB(st) ==> i%8 == 0
+//@   loop 1 invariant walk(st, key, 0, 0) == walk(st, key, int(eqID), int(i))
 //@   loop 1 invariant i%4 == 0
 //@   loop 1 invariant qr != nil && qr.key == key && qr.keyBitLen == l && int(l) == 8*len(key) && ns == st.inner
 //@   loop 1 invariant (lID == -1 || (0 <= lID && int(lID) < nN(st))) && (rID == -1 || (0 <= rID && int(rID) < nN(st)))
 //@   loop 1 decreases nN(st) - int(eqID)
-//@   after getNode#1 use at(qr.ithInner, eqID)
+//@   before "l := int32(8 * len(key))" use core_facts(st)
+//@   before "l := int32(8 * len(key))" use inners_facts(st)
+//@   after getNode#1 use node_facts(st, int(qr.ithInner))
+//@   after getNode#1 use node_parent(st, int(eqID))
+//@   after getNode#1 use walk_leaf(st, key, int(eqID), int(i))
+//@   after getNode#1 use tail_facts(st, leaf_ord(st, int(eqID)))
+//@   after getNode#1 use W_tailok_def(st, key, leaf_ord(st, int(eqID)), int(i))
+//@   after getNode#1 use walk_nomatch(st, key, int(eqID), int(i), int(qr.ithInner))
+//@   after getNode#1 use walk_short(st, key, int(eqID), int(i), int(qr.ithInner), W_i1(st, int(qr.ithInner), int(i)))
+//@   after getNode#1 use walk_nobranch(st, key, int(eqID), int(i), int(qr.ithInner), W_i1(st, int(qr.ithInner), int(i)))
+//@   after getNode#1 use walk_end(st, key, int(eqID), int(i), int(qr.ithInner), W_i1(st, int(qr.ithInner), int(i)))
+//@   after getNode#1 assert qr.isInner == 1 ==> bitat(NTW(st), eqID) == 1 && rank1(NTW(st), eqID) == int(qr.ithInner)
+//@   after strCmpUpto#1 assert sameslice(qr.innerPrefix, W_ipb(st, int(qr.ithInner)))
+//@   after strCmpUpto#1 use W_ipm_def(st, key, int(qr.ithInner), int(i))
+//@   after strCmpUpto#1 assert (result == 0) == W_ipm(st, key, int(qr.ithInner), int(i))
+//@   after getLeftChildID#1 use rank1_step(NTW(st), int(eqID))
+//@   after getLeftChildID#1 use rank1_mono(NTW(st), int(eqID) + 1, int(result0) + 1)
+//@   after getLeftChildID#1 use align_sum(athead(1, int(i)), int(qr.innerPrefixLen))
+//@   after getLeftChildID#1 assert i%4 == 0 && 0 <= i && i <= l && (int(qr.ithInner) < nB(st) ==> i%8 == 0)
+//@   after getLeftChildID#1 assert is_node(st, qr)
+//@   after getLeftChildID#1 assert int(i) == W_i1(st, int(qr.ithInner), athead(1, int(i)))
+//@   after getLeftChildID#1 assert !(W_hasip(st, int(qr.ithInner)) && !W_ipm(st, key, int(qr.ithInner), athead(1, int(i))))
+//@   after getLeftChildID#1 assert int(result1) == W_has(st, key, int(qr.ithInner), int(i)) && int(result0) == W_lch(st, key, int(qr.ithInner), int(i)) && int(qr.wordSize) == W_wsz(st, int(qr.ithInner))
+//@   after getLeftChildID#1 use walk_step(st, key, athead(1, int(eqID)), athead(1, int(i)), int(qr.ithInner), int(i), int(result0) + 1, int(qr.wordSize))
+//@   at "i += qr.wordSize" use align_sum(int(i) - int(qr.wordSize), int(qr.wordSize))
+//@   at "i += qr.wordSize" assert rank1(NTW(st), eqID) > int(qr.ithInner) && (int(qr.wordSize) == 4 || int(qr.wordSize) == 8) && (int(qr.ithInner) < nB(st) ==> int(qr.wordSize) == 8)
+//@   at "i += qr.wordSize" assert qr.wordSize == 4 ==> (int(i) - 4)%4 == 0 && int(i)%4 == 0
+//@   at "i += qr.wordSize" assert qr.wordSize == 8 ==> (int(i) - 8)%4 == 0 && int(i)%4 == 0
+//@   at "i += qr.wordSize" assert int(qr.ithInner) < nB(st) ==> qr.wordSize == 8 && (int(i) - 8)%8 == 0
+//@   at "i += qr.wordSize" assert int(qr.ithInner) < nB(st) ==> int(i)%8 == 0
+//@   at "i += qr.wordSize" assert rank1(NTW(st), eqID) < nB(st) ==> int(qr.ithInner) < nB(st)
+//@   at "i += qr.wordSize" use align_step(int(i) - int(qr.wordSize), int(l))
+//@   after cmpLeafPrefix#1 assert qr.isInner == 0 ==> int(i) == athead(1, int(i)) && int(eqID) == athead(1, int(eqID)) && int(qr.ithLeaf) == athead(1, leaf_ord(st, int(eqID))) && qr.hasLeafPrefix == has_tail(st, int(qr.ithLeaf))
+//@   after cmpLeafPrefix#1 assert qr.isInner == 0 && st.inner.LeafPrefixes != nil && qr.hasLeafPrefix ==> has_tail(st, athead(1, leaf_ord(st, int(eqID)))) && sameslice(qr.leafPrefix, st.inner.LeafPrefixes.Bytes[tail_lo(st, athead(1, leaf_ord(st, int(eqID)))):tail_hi(st, athead(1, leaf_ord(st, int(eqID))))])
+//@   after cmpLeafPrefix#1 assert qr.isInner == 0 && st.inner.LeafPrefixes != nil && qr.hasLeafPrefix ==> int(result) == bytes_cmp(bytesof(key[athead(1, int(i))/8:]), st.inner.LeafPrefixes.Bytes[tail_lo(st, athead(1, leaf_ord(st, int(eqID)))):tail_hi(st, athead(1, leaf_ord(st, int(eqID))))])
+//@   after cmpLeafPrefix#1 assert qr.isInner == 0 && st.inner.LeafPrefixes != nil && qr.hasLeafPrefix && result == 0 ==> len(key) - athead(1, int(i))/8 == tail_hi(st, athead(1, leaf_ord(st, int(eqID)))) - tail_lo(st, athead(1, leaf_ord(st, int(eqID))))
+//@   after cmpLeafPrefix#1 assert qr.isInner == 0 && st.inner.LeafPrefixes != nil && !qr.hasLeafPrefix ==> (result == 0) == (len(key) == athead(1, int(i))/8)
+//@   after cmpLeafPrefix#1 assert qr.isInner == 0 ==> (result == 0) == W_tailok(st, key, athead(1, leaf_ord(st, int(eqID))), athead(1, int(i)))
 //@   after getNode#1 assert qr.isInner == 1 ==> rank1(INW(st), qr.from) >= int(eqID)
 //@   after getNode#1 assert qr.isInner == 1 && is_short(st, int(qr.ithInner)) ==> rank1(INW(st), qr.from) + popcnt64(qr.bm) < nN(st)
 //@   after strCmpUpto#1 assert result == 0 ==> len(key) - int(i)/8 >= len(qr.innerPrefix) - 1
@@ -989,6 +1065,7 @@ func lemmaTypedGettersAgreeOnFound(st *SlimTrie, key string) (bool, bool, bool, 
 //@   at "eqID = chID" assert i == l ==> bitat(NTW(st), eqID) == 0
 //@   before "if eqID != -1 {" assert eqID == -1 || (bitat(NTW(st), eqID) == 0 && 0 <= eqID && int(eqID) < nN(st))
 //@   ensures st.inner.NodeTypeBM == nil ==> result0 == -1 && result1 == -1 && result2 == -1
+//@   ensures st.inner.NodeTypeBM != nil ==> int(result1) == walk(st, key, 0, 0)
 //@   ensures result0 == -1 || (0 <= result0 && int(result0) < nN(st))
 //@   ensures result1 == -1 || (0 <= result1 && int(result1) < nN(st))
 //@   ensures result2 == -1 || (0 <= result2 && int(result2) < nN(st))
@@ -1038,3 +1115,16 @@ func lemmaTypedGettersAgreeOnFound(st *SlimTrie, key string) (bool, bool, bool, 
 //@   ensures st.inner.NodeTypeBM == nil ==> len(st.levels) == 1 && st.levels[0].total == 0 && st.levels[0].inner == 0 && st.levels[0].leaf == 0
 
 func lemmaShapeIsPartOfWf(st *SlimTrie) {}
+
+func lemmaGetIDSearchIDAgree(st *SlimTrie, key string) (int32, int32) {
+	a := st.GetID(key)
+	_, b, _ := st.searchID(key)
+	return a, b
+}
+
+func lemmaGetSearchRangeGetAgree(st *SlimTrie, key string) (interface{}, bool, interface{}, interface{}, bool) {
+	v, f := st.Get(key)
+	_, ev, _ := st.Search(key)
+	rv, rf := st.RangeGet(key)
+	return v, f, ev, rv, rf
+}
